@@ -52,9 +52,14 @@ Definition fin (l : loc) (f : flavour) : path := (fst l, NFinal (snd l) f).
 Definition tmp (l : loc) (f : flavour) : path := (fst l, NTmp (snd l) f).
 
 (* ---- contents ----------------------------------------------------------------------- *)
-Inductive cls := CA | CB | CW.                       (* two function-node classes, Workflow *)
+(* two function-node classes, Workflow, and two distinct classes that share module and qualified
+   name (class identity is what Node.load compares, not names) *)
+Inductive cls := CA | CB | CW | CP | CQ.
 Definition cls_eqb (a b : cls) : bool :=
-  match a, b with CA, CA => true | CB, CB => true | CW, CW => true | _, _ => false end.
+  match a, b with
+  | CA, CA => true | CB, CB => true | CW, CW => true | CP, CP => true | CQ, CQ => true
+  | _, _ => false
+  end.
 
 Inductive content :=
 | Full (c : cls) (v : Z)                             (* a complete pickle of a node of class c in state v *)
@@ -277,7 +282,8 @@ Definition lres_of (x : option (flavour * cls * Z)) : lres :=
   match x with Some (_, c, v) => LOk c v | None => LNotFound end.
 
 (* ---- observations (what the harness prints for the real code) --------------------------- *)
-Definition ocls (c : cls) : obs := OS (match c with CA => "A" | CB => "B" | CW => "W" end).
+Definition ocls (c : cls) : obs :=
+  OS (match c with CA => "A" | CB => "B" | CW => "W" | CP => "P" | CQ => "Q" end).
 Definition ocontent (o : option content) : obs :=
   match o with
   | None => OZ 0
